@@ -60,7 +60,7 @@ func c07Registered(cfg []c07Entry) map[string]c07Entry {
 	return m
 }
 
-var c07Variants = []string{"own-name", "absent", "null", "unknown-url", "other-builtin-name", "ext0-name", "ext1-name", "own-tag-ext-name", "both-keys", "wrong-type", "own-name-json-escaped", "own-name-respelled", "refused-registration-name", "own-name-key-long-head", "unknown-url-key-long-head"}
+var c07Variants = []string{"own-name", "absent", "null", "unknown-url", "other-builtin-name", "ext0-name", "ext1-name", "own-tag-ext-name", "both-keys", "wrong-type", "own-name-json-escaped", "own-name-respelled", "refused-registration-name", "own-name-key-long-head", "unknown-url-key-long-head", "own-name+other-name-under-congruent-key"}
 
 type c07Token struct {
 	shape     int  // key family of the claims in the token
@@ -91,7 +91,7 @@ func c07Build(shape int, valid bool, variant int) *c07Token {
 		own, other = other, own
 	}
 	switch c07Variants[variant] {
-	case "own-name", "own-name-json-escaped", "own-name-key-long-head":
+	case "own-name", "own-name-json-escaped", "own-name-key-long-head", "own-name+other-name-under-congruent-key":
 		t.ownVal = own
 	case "unknown-url-key-long-head":
 		t.ownVal = "http://unknown.example/p"
@@ -150,6 +150,10 @@ func c07Build(shape int, valid bool, variant int) *c07Token {
 	if strings.HasSuffix(c07Variants[variant], "-key-long-head") && !t.ownAbsent {
 		// the same key with a non-shortest head (CBOR only; the JSON document is unchanged)
 		tree.Pairs[0][0] = tree.Pairs[0][0].W(8)
+	}
+	if c07Variants[variant] == "own-name+other-name-under-congruent-key" {
+		// an unknown key that equals the profile-2 selector key modulo 2^32 carries the other profile's name (CBOR only)
+		tree.Pairs = append([][2]*mcbor.Node{{mcbor.U(1<<32 + 265), mcbor.T(other)}}, tree.Pairs...)
 	}
 	t.cbor = mcbor.Encode(tree)
 	t.json, _ = json.Marshal(m)
